@@ -259,4 +259,10 @@ format; only their keys keep them apart). -/
 theorem C02_skeleton_SetCookieStore : Sso.Generated.skel_auth_SetCookieStore =
     ["func{", "call:DecodeString", "if{", "return", "}", "call:?", "call:NewMiscreantCipher", "if{", "return", "}", "call:DecodeString", "if{", "return", "}", "call:Sprintf", "call:CreateMiscreantCookieCipher", "func{", "store:c.CookieDomain", "store:c.CookieHTTPOnly", "store:c.CookieExpire", "store:c.CookieSecure", "return", "}", "call:NewCookieStore", "if{", "return", "}", "store:a.csrfStore", "store:a.sessionStore", "store:a.AuthCodeCipher", "return", "}", "return"] := by decide
 
+/-- Tie (T1), third wave: the constructors and option functions that hand configured values to the components this property
+speaks about (proxy_SetCookieStore). -/
+theorem C02_wiring3 :
+    Sso.Generated.skel_proxy_SetCookieStore =
+      ["func{", "call:DecodeString", "if{", "return", "}", "call:CreateMiscreantCookieCipher", "func{", "store:c.CookieDomain", "store:c.CookieHTTPOnly", "store:c.CookieExpire", "store:c.CookieSecure", "return", "}", "call:NewCookieStore", "if{", "return", "}", "store:op.csrfStore", "store:op.sessionStore", "store:op.cookieCipher", "return", "}", "return"] := by decide
+
 end Sso.Seal
